@@ -1,7 +1,7 @@
 (* C03 proofs, part 2: the hamming space built by expand, the resolution loop, the lookup theorem. *)
 From Coq Require Import ZArith List Bool Arith Lia Permutation Sorted.
 Import ListNotations.
-From SCMO Require Import Lib.Val Model.C03 Proofs.C03.
+From SCMO Require Import Lib.Val Lib.PyInt Gen.GenBarcode Model.C03 Proofs.C03.
 
 (* ------------------------------------------------------------------ group-by: hammingSpace[inst].append(e) *)
 Definition item := (str * entry)%type.      (* (hammingInstance, (distance, origin)) in append order *)
@@ -80,7 +80,7 @@ Definition items_of (k : nat) (ks : list str) : list item :=
 Lemma build_space_items k ks : build_space k ks = space_of (items_of k ks) [].
 Proof.
   unfold build_space, space_of, items_of. rewrite fold_left_flat_map.
-  apply fold_left_ext. intros hs b. unfold add_barcode_space. rewrite fold_left_flat_map.
+  apply fold_left_ext. intros hs b. unfold add_barcode_space. rewrite gen_dist_range_shape, fold_left_flat_map.
   apply fold_left_ext. intros hs' d. unfold add_circle. rewrite fold_left_map. reflexivity.
 Qed.
 
@@ -142,9 +142,17 @@ Lemma resolve_step_pick t inst l : l <> [] ->
   end.
 Proof.
   intros Hne. unfold resolve_step, pick. cbn [fst snd].
+  rewrite gen_tie_shape, gen_pick_index_shape.
   pose proof (sort_nonempty l Hne) as Hs.
-  destruct (sort l) as [|x rest]; [congruence|].
-  destruct (match rest with y :: _ => Nat.eqb (fst x) (fst y) | [] => false end); reflexivity.
+  destruct (sort l) as [|x [|y rest]]; [congruence| |].
+  - change (Z.to_nat 0) with 0%nat. reflexivity.
+  - replace (1 <? Z.of_nat (length (x :: y :: rest)))%Z with true
+      by (symmetry; apply Z.ltb_lt; cbn [length]; lia).
+    change (Z.to_nat 0) with 0%nat. change (Z.to_nat 1) with 1%nat. cbn [andb nth nth_error].
+    destruct (Nat.eqb_spec (fst x) (fst y)) as [E|E].
+    + rewrite E, Z.eqb_refl. reflexivity.
+    + replace (Z.of_nat (fst x) =? Z.of_nat (fst y))%Z with false by (symmetry; apply Z.eqb_neq; lia).
+      reflexivity.
 Qed.
 
 Definition hs_sound (ks : list str) (hs : hspace) : Prop :=
